@@ -330,14 +330,14 @@ theorem closed_empty : Closed (⟨[]⟩ : Heap F) := by
 
 section NonVacuity
 
-private def D0 : Consts Rat := ⟨0, 0, 0⟩
-private def t0 : DInfo Rat := .tuple [.enum "e" [("a", 1)], .bool]
-private def h0 : Heap Rat := (build t0 ⟨[]⟩).1
-private def r0 : Ref := (build t0 ⟨[]⟩).2
+def D0 : Consts Rat := ⟨0, 0, 0⟩
+def t0 : DInfo Rat := .tuple [.enum "e" [("a", 1)], .bool]
+def h0 : Heap Rat := (build t0 ⟨[]⟩).1
+def r0 : Ref := (build t0 ⟨[]⟩).2
 
-private theorem h0_closed : Closed h0 := build_closed t0 ⟨[]⟩ closed_empty
-private theorem r0_lt : r0 < h0.size := (build_spec t0 ⟨[]⟩ h0 r0 rfl).2.1.2
-private theorem copy0 : copyH D0 h0 r0 = some ((build t0 h0).1, (build t0 h0).2) := by rfl
+theorem h0_closed : Closed h0 := build_closed t0 ⟨[]⟩ closed_empty
+theorem r0_lt : r0 < h0.size := (build_spec t0 ⟨[]⟩ h0 r0 rfl).2.1.2
+theorem copy0 : copyH D0 h0 r0 = some ((build t0 h0).1, (build t0 h0).2) := by rfl
 
 /-- the original tree (root `r0`, allocated before) does not reach the root of its copy … -/
 example : ¬ Reach (build t0 h0).1 r0 (build t0 h0).2 :=
